@@ -390,7 +390,11 @@ class Interp:
             base = self.load(fn, frame, place[1])
             idx = frame[place[2]]
             i = idx.v if isinstance(idx, I) else idx
+            if hasattr(base, "index_box"):
+                return base.index_box(self, i)
             if is_sym(i):
+                if isinstance(base, list):
+                    return SymIndexBox(self, base, i), 0
                 raise Unsupported("symbolic index")
             if hasattr(base, "index_box"):
                 return base.index_box(self, i)
@@ -656,9 +660,17 @@ class Interp:
                 return I(x // y if op == "Div" else x % y, ty)
             q, r = self.divrem(x, y)
             return I(q if op == "Div" else r, ty)
+        if op in ("Shr", "ShrUnchecked", "Shl", "ShlUnchecked") and not isinstance(y, int):
+            # symbolic shift amount (0 <= y < bits is established by the overflow assert MIR emits):
+            # multiplication / division by 2^y through an ite-chain
+            p2 = z3.IntVal(1 << (bits - 1))
+            for j in range(bits - 2, -1, -1):
+                p2 = z3.If(y == j, 1 << j, p2)
+            if op.startswith("Shr"):
+                return I(x / p2, ty)
+            xv = x if not isinstance(x, int) else z3.IntVal(x)
+            return I((xv * p2) % mod, ty)
         if op in ("Shr", "ShrUnchecked", "Shl", "ShlUnchecked"):
-            if not isinstance(y, int):
-                raise Unsupported("symbolic shift amount")
             if op.startswith("Shr"):
                 return I(x >> y if conc else x / (1 << y), ty)
             return I(self.wrap(x * (1 << y), bits, signed), ty)
@@ -709,6 +721,51 @@ class Interp:
         self.ctx.side += [q >= 0, r >= 0, z3.Implies(y > 0, z3.And(r < y, x == prod + r, q <= x))]
         self.ctx.exact_int.append(z3.Implies(y > 0, z3.And(q == x / y, r == x % y)))
         return q, r
+
+
+class SymIndexBox:
+    """list element selected by a symbolic index: reads are ite-chains, writes update every element
+    conditionally (the bounds check is the explicit assert MIR puts before the access)"""
+
+    def __init__(self, interp, lst, idx):
+        self.interp, self.lst, self.idx = interp, lst, idx
+
+    def __getitem__(self, k):
+        it, lst, idx = self.interp, self.lst, self.idx
+        e0 = lst[0]
+        if isinstance(e0, I):
+            t = lst[-1].v if not isinstance(lst[-1].v, int) else z3.IntVal(lst[-1].v)
+            for j in range(len(lst) - 2, -1, -1):
+                v = lst[j].v if not isinstance(lst[j].v, int) else z3.IntVal(lst[j].v)
+                t = z3.If(idx == j, v, t)
+            return I(t, e0.ty)
+        if isinstance(e0, F):
+            name = it.fresh("sel")
+            a = it.ctx.var(name)
+            za = it.ctx.atoms[name]
+            t = it.ctx.value(lst[-1].l)
+            for j in range(len(lst) - 2, -1, -1):
+                t = z3.If(idx == j, it.ctx.value(lst[j].l), t)
+            it.ctx.side.append(za == t)
+            return F(a)
+        raise Unsupported(f"symbolic index into list of {type(e0).__name__}")
+
+    def __setitem__(self, k, v):
+        it, lst, idx = self.interp, self.lst, self.idx
+        for j in range(len(lst)):
+            old = lst[j]
+            if isinstance(v, I):
+                ov = old.v if not isinstance(old.v, int) else z3.IntVal(old.v)
+                nv = v.v if not isinstance(v.v, int) else z3.IntVal(v.v)
+                lst[j] = I(z3.If(idx == j, nv, ov), v.ty)
+            elif isinstance(v, F):
+                name = it.fresh("upd")
+                a = it.ctx.var(name)
+                za = it.ctx.atoms[name]
+                it.ctx.side.append(za == z3.If(idx == j, it.ctx.value(v.l), it.ctx.value(old.l)))
+                lst[j] = F(a)
+            else:
+                raise Unsupported(f"symbolic-index store of {type(v).__name__}")
 
 
 class DowncastBox:
